@@ -41,6 +41,17 @@ def gen_headers(rng, L, n):
         out.append(("bytes=5-8,0-3", [("closed", "5-8"), ("closed", "0-3")]))
         out.append(("bytes=0-0,%d-%d,-1,2-" % (L - 1, L - 1), [("closed", "0-0"), ("closed", "%d-%d" % (L - 1, L - 1)), ("suffix", "-1"), ("open", "2-")]))
         out.append(("bytes=0-3,0-3", [("closed", "0-3"), ("closed", "0-3")]))
+    if L >= 10:
+        # many ranges in one header (counts around powers of two, as many as fit into one read): all inside the file
+        for cnt in (15, 16, 17, 63, 64, 65, 127, 128, 129, 199, 200, 201, 255, 256, 257, 511, 512, 513, 1000):
+            specs = []
+            for j in range(cnt):
+                a = (j * 7) % (L - 1)
+                form = ("closed", "%d-%d" % (a, min(L - 1, a + (j % 3)))) if j % 5 else (("suffix", "-%d" % (1 + j % 4)) if j % 2 else ("open", "%d-" % (L - 1 - j % 3)))
+                specs.append(form)
+            val = "bytes=" + ",".join(sp for _, sp in specs)
+            if len(val) < 9500:
+                out.append((val, specs))
     for _ in range(n):
         k = rng.choice([1, 1, 1, 2, 2, 3, 4, 6])
         specs = [gen_spec(rng, L) for _ in range(k)]
